@@ -83,6 +83,10 @@ LeqPos(a, b, c, d) == a < c \/ (a = c /\ b <= d)
 \* the call is the origin of a declaration iff its range lies within a VarDeclaration's
 OriginCtx(i) == \E j \in 1..(i - 1) : NN[j][1] = "VarDeclaration" /\ LeqPos(NN[j][2], NN[j][3], NN[i][2], NN[i][3]) /\ LeqPos(NN[i][4], NN[i][5], NN[j][4], NN[j][5])
 FnKnown(i) == IF OriginCtx(i) THEN NN[i][6] \in {"meta", "balance", "overdraft"} ELSE NN[i][6] \in {"set_tx_meta", "set_account_meta"}
+\* a use inside the origin of the very declaration that introduces its name (the variable does not exist there yet:
+\* whether the editor still links it to that declaration is left open)
+InNode(d, x) == LeqPos(NN[d][2], NN[d][3], NN[x][2], NN[x][3]) /\ LeqPos(NN[x][4], NN[x][5], NN[d][4], NN[d][5])
+SelfUse(i) == LET d == DeclOf(i) IN d # 0 /\ \E v \in 1..Len(NN) : NN[v][1] = "VarDeclaration" /\ InNode(v, d) /\ InNode(v, i)
 NoHover(pr) == pr[3] = 0 /\ pr[6] = -1
 Mentions(pr, w) == \E k \in 1..Len(pr[4]) : pr[4][k] = w
 NoDef(pr) == pr[10] = -1
@@ -95,6 +99,7 @@ ProbeOk(pr) ==
        IF NN[i][1] = "Variable" THEN
           LET d == DeclOf(i) IN
           IF d = 0 THEN NoHover(pr) /\ NoDef(pr)
+          ELSE IF SelfUse(i) /\ NoHover(pr) /\ NoDef(pr) THEN TRUE
           ELSE /\ pr[3] = 1 /\ Mentions(pr, "$" \o NN[i][6]) /\ Mentions(pr, NN[d - 1][6])
                /\ <<pr[6], pr[7], pr[8], pr[9]>> = <<NN[i][2], NN[i][3], NN[i][4], NN[i][5]>>
                /\ <<pr[10], pr[11], pr[12], pr[13]>> = <<NN[d][2], NN[d][3], NN[d][4], NN[d][5]>>
